@@ -247,16 +247,24 @@ def judge_lib(case, obs):
         return v.bucket("lib-illegal-length-refused")
     nb = bip39.ENT_BYTES[L]
     if req.get("fail_at") or req.get("fail_from"):
+        if not any(c["ret"] != 0 for c in calls):
+            # no request was made during this call (a library that fetches ahead served it from bytes obtained earlier), so no
+            # failure was reported to it: nothing to demand
+            v.nontrivial = False
+            return v.bucket("lib-fault-not-reached")
         if "ok" in o:
-            served = [c["bytes"] for c in calls if c["ret"] == 0]
             return v.bad("C12/lib-fail-L%d/generated" % L, "every usable entropy request failed (errno %s) but a phrase was returned: %r" % (
                 req.get("errno", 5), o["ok"]["phrase"][:40]))
-        if not calls or calls[0]["ret"] != -1:
-            return v.bad("C12/lib-fail-L%d/no-request" % L, "no failing request observed: %s" % calls)
         return v.bucket("lib-fail")
     if "ok" not in o:
         return v.bad("C12/lib-L%d/failed" % L, "Mnemonic::random(%d) failed: %s" % (L, o.get("err")))
     served = [c["bytes"] for c in calls if c["ret"] == 0]
+    if not calls and o.get("recent"):
+        served = [o["recent"]]  # fetched ahead during an earlier request of this process
+        v.bucket("lib-served-from-earlier-request")
+    if req.get("passthrough"):
+        v.nontrivial = False
+        return v.bucket("lib-passthrough-not-judged")
     try:
         got_words = o["ok"]["phrase"].split(" ")
         ent = bip39.decode_words(got_words)
